@@ -8,6 +8,22 @@ CHECKS = {
  "C01": dict(level="exploration", design="3/C01", technique="runtime monitoring: recording exec interposer + offline per-call oracle",
    text="Every generated call (config x path/argv/envp shape x outcome, every errno) is executed through the production libsnoopy.so with a recording execv/execve where RTLD_NEXT resolves; the oracle checks exactly-once, pointer identity, deep content hashes before/at/after, ret/errno delivery, no sink activity after the real call, mutex depth 0 and empty thread registry at the real call, and the argv/envp seen by a really exec'd image. Held on the executions observed, not a proof.",
    note="Trusts: LD_PRELOAD symbol order (libvrec.so right after libsnoopy.so), the driver's own hashing, strace-free observation; shapes are sampled, not exhaustive."),
+ "C04": dict(level="exploration", design="3/C04", technique="runtime monitoring: driver-owned sinks sampled at the real-exec instant + format/frame oracle",
+   text="All sinks a record could reach (log files, stdout/stderr pipes, pty, datagram sockets for socket: and redirected /dev/log) are owned by the driver and sampled at call begin, at the instant the recording exec is entered and after return; the oracle demands exactly M+newline / one datagram M / one datagram <pri>ident[pid]: M at the configured sink only, already at the real-exec instant, nothing later, and nothing at all for dropped or empty messages; successful real execs are checked from the parent side.",
+   note="Message carried in argv through %{cmdline}; /dev/log redirected by an interposed connect(); OS datagram size limit and pty capacity bound the sizes used for those sinks."),
+ "C05": dict(level="exploration", design="3/C05 + Appendix A.2", technique="runtime monitoring against an executable reference model of the format language",
+   text="Records produced by the production library under generated formats, limits and inputs are compared byte for byte with format_model.py whenever the expansion fits both limits; otherwise the two bounds and the order/prefix structure of marker pieces are asserted. Covers grammar-generated formats, boundary steering of both limits (-1/0/+1/far above) for limits 255..1048575, syslog ident and output-path templates.",
+   note="Model written from the documentation; after an unknown data source both stop and continue are accepted; formats limited to what one INI line carries (longer ones: in-vitro arm of C02)."),
+ "C06": dict(level="exploration", design="3/C06", technique="runtime monitoring of call histories with unique tokens",
+   text="Histories of 2..50 consecutive wrapped calls in one process, every call carrying unique tokens, are run against the thread-safe, non-thread-safe and ASan builds; each record must be filename/cmdline of its own call (exact when within the limit, prefix above it, path fallback for NULL/empty argv) and contain no token of another call.",
+   note="Records are read from the socket output; above the limit only the prefix property is asserted."),
+ "C07": dict(level="exploration", design="3/C07 + Appendix A.4", technique="runtime monitoring, exhaustive small chains + metamorphic comparison",
+   text="All chains of up to 3 (quick) / 4 (thorough) elements over a 14-spec alphabet under real uid {0,U} x stdin {pty,pipe}, plus random chains of up to 20 elements, are evaluated by the production library; logged/dropped is compared with chain_model, a drop must leave every sink empty with the exec still happening once, and chains with equal element sets must decide equally.",
+   note="Filter verdicts are derived from the process state the harness itself set up (uid, pty, ancestor names read from /proc)."),
+ "C14": dict(level="exploration", design="3/C14", technique="runtime monitoring under constructed uids",
+   text="Children running under real uid R (0, 1, 999, 2^16-1, 2^16, 2^31-1, 2^31, 2^32-2) with an unrelated effective uid consult only_uid:L, exclude_uid:L and only_root through the production library for generated lists with near misses; outcomes are compared with exact set membership and only_uid xor exclude_uid.",
+   note="Lists limited to one config line (about 85 uids)."),
+
  "C18": dict(level="exploration", design="3/C18-C19", technique="runtime monitoring of the real snoopyctl against a reference model, exhaustive over small files",
    text="The snoopyctl built from the working tree is run (enable, enable again, status) on every ld.so.preload content of up to 3 (quick) / 4 (thorough) lines over an 18-kind line alphabet, terminated and unterminated, plus absent/empty and thousands of random files; file bytes, exit status and status output are compared with preload_model. Exhaustive for the enumerated small files, sampled beyond.",
    note="Trusts the SNOOPY_TEST_* path overrides (the suite's own mechanism) and the model of 'comment line' / 'active entry' in DESIGN A.3; open points of the property accept several outcomes."),
